@@ -382,7 +382,7 @@ func subs(schema string) []subSpec {
 		{Kind: "whenticks", States: am.S{"A"}, N: 1}, {Kind: "whenticks", States: am.S{"B"}, N: 2},
 		{Kind: "whennext", States: am.S{"A"}}, {Kind: "whennext", States: am.S{"B"}},
 		{Kind: "whenquery"},
-		{Kind: "whenqueue", N: 1}, {Kind: "whenqueue", N: 2},
+		{Kind: "whenqueue", N: 0}, {Kind: "whenqueue", N: 1}, {Kind: "whenqueue", N: 2},
 		{Kind: "statectx", States: am.S{"A"}}, {Kind: "statectx", States: am.S{"B"}},
 	}
 	if schema == "plain3" || schema == "multi" {
